@@ -843,11 +843,59 @@ PreBuyDirect(s, m) ==
            /\ HasBal(s, so.seller, so.bk) /\ BalOf(s, so.seller, so.bk).e >= o.qty
            /\ HasSupply(s, so.bk) /\ SupplyOf(s, so.bk).t >= o.qty
 
+\* the owner of an open order changes it: new quantity covered by escrow + tradable, allowed
+\* denom, expiration in the future
+PreUpdateSellOrders(s, m) ==
+  /\ Len(m.updates) = 1
+  /\ LET u == m.updates[1] IN
+     /\ u.qty > 0 /\ u.ask_amt > 0 /\ HasOrder(s, u.id)
+     /\ LET o == OrderById(s, u.id) IN
+        /\ o.seller = m.seller
+        /\ HasBatchKey(s, o.bk) /\ BatchResolvable(s, BatchByKey(s, o.bk)) /\ HasMarketId(s, o.mid)
+        /\ DenomAllowed(s, u.ask_denom)
+        /\ (u.exp.set => u.exp.t > s.now)
+        /\ HasBal(s, o.seller, o.bk)
+        /\ (u.qty > o.qty => BalOf(s, o.seller, o.bk).t >= u.qty - o.qty)
+        /\ (u.qty < o.qty => BalOf(s, o.seller, o.bk).e >= o.qty - u.qty)
+
+PreCancelSellOrder(s, m) ==
+  /\ HasOrder(s, m.id) /\ OrderById(s, m.id).seller = m.seller
+  /\ LET o == OrderById(s, m.id) IN HasBal(s, o.seller, o.bk) /\ BalOf(s, o.seller, o.bk).e >= o.qty
+
+\* the holder of tradable credits sends / retires / cancels them (one entry)
+PreSend(s, m) ==
+  /\ Len(m.credits) = 1 /\ m.sender # m.recipient /\ Acct(m.recipient) # m.sender
+  /\ LET e == m.credits[1] IN
+     /\ e.t + e.r > 0
+     /\ HasBatchDenom(s, e.denom) /\ BatchResolvable(s, BatchByDenom(s, e.denom))
+     /\ LET bk == BatchByDenom(s, e.denom).key IN
+        /\ HasBal(s, m.sender, bk) /\ BalOf(s, m.sender, bk).t >= e.t + e.r
+        /\ (e.r > 0 => HasSupply(s, bk) /\ SupplyOf(s, bk).t >= e.r)
+
+PreBurn(s, m) ==
+  /\ Len(m.credits) = 1
+  /\ LET e == m.credits[1] IN
+     /\ e.amt > 0
+     /\ HasBatchDenom(s, e.denom) /\ BatchResolvable(s, BatchByDenom(s, e.denom))
+     /\ LET bk == BatchByDenom(s, e.denom).key IN
+        /\ HasBal(s, m.owner, bk) /\ BalOf(s, m.owner, bk).t >= e.amt
+        /\ HasSupply(s, bk) /\ SupplyOf(s, bk).t >= e.amt
+
+\* bridge out: an allowed target chain and a batch with a bound contract
+PreBridge(s, m) ==
+  /\ PreBurn(s, m) /\ Lower(m.target) \in s.chains
+  /\ HasContract(s, BatchByDenom(s, m.credits[1].denom).key)
+
 PreOf(s, e) ==
   CASE e.type = "CreateClass"  -> PreCreateClass(s, e.m)
     [] e.type = "BasketCreate" -> PreBasketCreate(s, e.m)
     [] e.type = "Sell"         -> PreSell(s, e.m)
     [] e.type = "BuyDirect"    -> PreBuyDirect(s, e.m)
+    [] e.type = "UpdateSellOrders" -> PreUpdateSellOrders(s, e.m)
+    [] e.type = "CancelSellOrder"  -> PreCancelSellOrder(s, e.m)
+    [] e.type = "Send"         -> PreSend(s, e.m)
+    [] e.type \in {"Retire", "Cancel"} -> PreBurn(s, e.m)
+    [] e.type = "Bridge"       -> PreBridge(s, e.m)
     [] OTHER -> FALSE
 
 C18_NoFeatureDisabled_Step ==
